@@ -178,6 +178,17 @@ impl<S: Socket + 'static> Lane<S> {
             None => false,
         }
     }
+    fn cancel_recv(&mut self, cx: &Ctx) -> bool {
+        match self.receiving.take() {
+            Some(fut) => {
+                drop(fut);
+                cx.log(|| "  receive: pending future dropped (abandoned), a new receive starts at the next receiver poll".to_string());
+                self.recv_idle = 0;
+                true
+            }
+            None => false,
+        }
+    }
     fn poll_recv(&mut self, cx: &Ctx) {
         if self.recv_error.is_some() {
             return;
@@ -262,11 +273,14 @@ pub struct Spec {
     /// 0 = off; K > 0: one send (free choice which) is abandoned after k sender polls, for every
     /// k in 0..K - cancellation points far into a long send, beyond the scheduled slots
     pub abandon_within: usize,
+    /// the scheduled slots may also drop a pending RECEIVE future (a new one is started at the next
+    /// receiver poll): C07's guarantee, over the runtime's real transport
+    pub recv_cancels: bool,
 }
 
 impl Spec {
     pub fn to_json(&self) -> Value {
-        json!({"rt": format!("{:?}", self.rt), "sizes": self.sizes, "max_msgs": self.max_msgs, "slots": self.slots, "bidir": self.bidir, "cancels": self.cancels, "small_buffers": self.small_buffers, "abandon_within": self.abandon_within})
+        json!({"rt": format!("{:?}", self.rt), "sizes": self.sizes, "max_msgs": self.max_msgs, "slots": self.slots, "bidir": self.bidir, "cancels": self.cancels, "small_buffers": self.small_buffers, "abandon_within": self.abandon_within, "recv_cancels": self.recv_cancels})
     }
     pub fn from_json(v: &Value) -> Option<Spec> {
         Some(Spec {
@@ -278,6 +292,7 @@ impl Spec {
             cancels: v["cancels"].as_bool()?,
             small_buffers: v["small_buffers"].as_bool()?,
             abandon_within: v["abandon_within"].as_u64().unwrap_or(0) as usize,
+            recv_cancels: v["recv_cancels"].as_bool().unwrap_or(false),
         })
     }
 }
@@ -334,8 +349,8 @@ fn run_with<R: Rt>(spec: &Spec, cx: &Ctx) -> Verdict {
         let mut action = default;
         if step < spec.slots {
             // fixed arity, so that the shape of the choice tree does not depend on what the kernel does
-            let arity = 1 + 2 * nl + if spec.cancels { nl } else { 0 };
-            let v = cx.choose_dev(arity, "step:default|poll-sender|poll-receiver|abandon-send");
+            let arity = 1 + 2 * nl + if spec.cancels { nl } else { 0 } + if spec.recv_cancels { nl } else { 0 };
+            let v = cx.choose_dev(arity, "step:default|poll-sender|poll-receiver|abandon-send|abandon-receive");
             step += 1;
             if v > 0 {
                 action = v - 1;
@@ -366,10 +381,18 @@ fn run_with<R: Rt>(spec: &Spec, cx: &Ctx) -> Verdict {
             } else {
                 lanes[l].poll_recv(cx);
             }
-        } else {
+        } else if spec.cancels && action < 3 * nl {
             let l = action - 2 * nl;
             if lanes[l].cancel_send(cx) {
                 cx.goal("send-abandoned-while-pending");
+            }
+        } else {
+            let l = action - 2 * nl - if spec.cancels { nl } else { 0 };
+            if lanes[l].cancel_recv(cx) {
+                cx.goal("receive-abandoned-while-pending");
+                if !lanes[l].received.is_empty() || lanes[l].sending.is_some() {
+                    cx.goal("receive-abandoned-mid-traffic");
+                }
             }
         }
         rt.turn();
